@@ -96,7 +96,7 @@ class GBook:
 
     def formula(self, s, done):
         rng = self.rng
-        f = rng.choice(['add', 'mul', 'if', 'sum', 'sum', 'sum2', 'ref'])
+        f = rng.choice(['add', 'mul', 'if', 'iflit', 'sum', 'sum', 'sum2', 'ref', 'index'])
         a, b, c = self.operand(s, done), self.operand(s, done), self.operand(s, done)
         if f == 'ref':
             t = rng.choice(done)
@@ -107,9 +107,15 @@ class GBook:
             return '=(%s*%s)' % (a[0], b[0]), a[1] + b[1]
         if f == 'if':
             return '=IF(%s,%s,%s)' % (a[0], b[0], c[0]), a[1] + b[1] + c[1]
+        if f == 'iflit':
+            # a literal condition: the branch that is never taken still is a dependency of the cell
+            return '=IF(%s,%s,%s)+%s' % (rng.choice(['TRUE', 'FALSE', '1', '0']), b[0], c[0], a[0]), b[1] + c[1] + a[1]
         ar = self.area(s, done)
         if ar is None:
             return '=(%s+%s)' % (a[0], b[0]), a[1] + b[1]
+        if f == 'index':
+            # one cell of the area is selected, all of them are dependencies
+            return '=INDEX(%s,1,1)+%s' % (ar[0], a[0]), ar[1] + a[1]
         if f == 'sum':
             return '=SUM(%s)' % ar[0], ar[1]
         return '=SUM(%s,%s)' % (ar[0], a[0]), ar[1] + a[1]
@@ -133,7 +139,7 @@ class GBook:
             anc = [a for a in formulas if a != b and b in self.reach([a])]
             pick = rng.choice(anc + [b]) if (anc and rng.random() < 0.8) else b      # self-reference is the 1-cycle
             txt = self.cells[b]
-            how = rng.choice(['plus', 'if', 'sum', 'iferror', 'iferror-fallback', 'ifs', 'and'])
+            how = rng.choice(['plus', 'if', 'sum', 'iferror', 'iferror-fallback', 'ifs', 'and', 'if-true', 'if-false', 'index'])
             r = self.ref(b[0], pick)
             if how == 'iferror':
                 self.cells[b] = '=IFERROR(%s,%s)' % (r, txt[1:])          # the cycle enters through the guarded argument
@@ -141,6 +147,13 @@ class GBook:
                 self.cells[b] = '=IFERROR(%s,%s)' % (txt[1:], r)          # … or through the fallback
             elif how == 'ifs':
                 self.cells[b] = '=IFS(TRUE,%s,FALSE,%s)' % (txt[1:], r)   # a pair that is never reached
+            elif how == 'if-true':
+                self.cells[b] = '=IF(TRUE,%s,%s)' % (txt[1:], r)
+            elif how == 'if-false':
+                self.cells[b] = '=IF(FALSE,%s,%s)' % (r, txt[1:])
+            elif how == 'index':
+                rr = r.split('!')[-1]
+                self.cells[b] = '=(%s)+INDEX(%s:%s,1,1)*0' % (txt[1:], r, rr)
             elif how == 'and':
                 self.cells[b] = '=IF(AND(0,%s),1,%s)' % (r, txt[1:])
             elif how == 'plus':
